@@ -85,9 +85,11 @@ func (lp *logfmtParser) NextRecord(ctx context.Context) (*model.Record, error) {
 
 	var r LogfmtJsonLogRec
 	err = json.Unmarshal(line, &r)
-
 	if err != nil {
-		return nil, err
+		// not a json log line (or a piece of one that is longer than the record limit): ship it as it
+		// stands; returning the error would stop the worker, and every new one, at this line for ever
+		lp.pos += int64(len(line))
+		return model.NewRecord(line, time.Now()), nil
 	}
 
 	rec := model.NewRecord(*(*[]byte)(unsafe.Pointer(&r.Log)), r.Time)
